@@ -1,6 +1,7 @@
 package main
 
 import (
+	"sync/atomic"
 	"errors"
 	"fmt"
 	"os"
@@ -70,6 +71,9 @@ func genStackConc(g *genCtx) {
 	g.newCase("kind=pushorder")
 	g.op("new size=0")
 	g.op("pushorder trials=%d g=4", trials)
+	g.newCase("kind=peeklive")
+	g.op("new size=0")
+	g.op("peeklive rounds=%d g=4 pinned=8", trials/200)
 	for t := 0; t < rounds; t++ {
 		g.newCase("kind=stress")
 		r := g.rng
@@ -245,6 +249,53 @@ func execStack(x *execCtx) {
 					}()
 				}
 				return fmt.Sprintf("panics=%d wrong=%d %s", panics, bad, raceObs())
+			case "peeklive":
+				// nothing is ever popped: while some goroutines push, Peek of an id whose Push has returned must find its value
+				rounds, G, pinned := atoi(f["rounds"]), atoi(f["g"]), atoi(f["pinned"])
+				var bad, panics atomic.Int64
+				for t := 0; t < rounds; t++ {
+					st := storage.NewGenericStack[int](0)
+					ids := make([]uint64, pinned)
+					for i := range ids {
+						ids[i] = st.Push(1000 + i)
+					}
+					var wg sync.WaitGroup
+					start := make(chan struct{})
+					for gi := 0; gi < G; gi++ {
+						wg.Add(2)
+						go func(gi int) {
+							defer wg.Done()
+							defer func() {
+								if r := recover(); r != nil {
+									panics.Add(1)
+								}
+							}()
+							<-start
+							for i := 0; i < 40; i++ {
+								st.Push(gi*100 + i)
+							}
+						}(gi)
+						go func() {
+							defer wg.Done()
+							defer func() {
+								if r := recover(); r != nil {
+									panics.Add(1)
+								}
+							}()
+							<-start
+							for i := 0; i < 40; i++ {
+								for k, id := range ids {
+									if v, err := st.Peek(id); err != nil || v != 1000+k {
+										bad.Add(1)
+									}
+								}
+							}
+						}()
+					}
+					close(start)
+					wg.Wait()
+				}
+				return fmt.Sprintf("panics=%d wrong=%d %s", panics.Load(), bad.Load(), raceObs())
 			case "stress":
 				return stackStress(s, atoi(f["g"]), atoi(f["ops"]), atoi(f["init"]), uint64(atoi(f["seed"])))
 			}
